@@ -34,7 +34,8 @@ CAUSES = {
     "await-cea": ["eof", "rst", "non-cea", "close-early"],
     # server role: the peer has connected but not yet sent its CER
     "accepted": ["eof", "rst"],
-    "open-idle": ["close", "dpr", "eof", "rst"],
+    # "close-silent": local close, the peer keeps the connection but never answers the DPR
+    "open-idle": ["close", "dpr", "eof", "rst", "close-silent"],
     "open-inbound": ["close", "dpr", "eof"],
     "open-outbound": ["close", "dpr", "eof", "rst"],
     "open-consumer": ["close", "dpr", "eof", "rst"],
@@ -52,12 +53,17 @@ class Termination(explore.Scenario):
     shared = SHARED_NODE
     auto_shared = True
 
+    def __init__(self, **params):
+        super().__init__(**params)
+        if params.get("cause") == "close-silent":
+            self.idle_window = 40.0      # nothing happens while the node waits for the DPA that never comes
+
     def driver(self, rt):
         P = self.params
         role, life, cause = P["role"], P["life"], P["cause"]
         obs = rt.observations
         T = shims.Thread
-        n = node.Node(rt, role)
+        n = node.Node(rt, role, watchdog=(4 if cause == "close-silent" else 30))
         d = n.diameter
         obs.update(reached=False, consumer_returned=None, restart=None)
         consumer_out = {}
@@ -181,6 +187,9 @@ class Termination(explore.Scenario):
                         dprs = [m for m in node.split_stream(n.peer.received())[0] if node.header_of(m)["code"] == 282]
                         h = node.header_of(dprs[-1])
                         n.peer.send(node.dpa(h["hbh"], h["e2e"]))
+            elif cause == "close-silent":
+                d.close()
+                n.settle(3 * 4 + 6.0)
             elif cause == "dpr":
                 n.peer.send(node.dpr(7, 8))
             elif cause == "dpa":
